@@ -55,10 +55,8 @@ Definition mk_tm (y m d h mi s : Z) : tm :=
 
 Definition check_date (y m d : Z) : bool :=
   if (y <=? 2099) && valid_date y m d then
-    match epoch_days (mk_tm y m d 0 0 0) with
-    | Some n => (n =? days_from_civil y m d) && (0 <=? n) && (n <? DAYS)
-    | None => false
-    end
+    let n := epoch_days (mk_tm y m d 0 0 0) in
+    (n =? days_from_civil y m d) && (0 <=? n) && (n <? DAYS)
   else true.
 
 Lemma sweep_dates :
@@ -66,7 +64,7 @@ Lemma sweep_dates :
 Proof. vm_compute. reflexivity. Qed.
 
 Lemma epoch_days_ok : forall y m d h mi s, 1970 <= y <= 2099 -> valid_date y m d = true ->
-  epoch_days (mk_tm y m d h mi s) = Some (days_from_civil y m d) /\ 0 <= days_from_civil y m d < DAYS.
+  epoch_days (mk_tm y m d h mi s) = days_from_civil y m d /\ 0 <= days_from_civil y m d < DAYS.
 Proof.
   intros y m d h mi s Hy Hv.
   assert (Hr : 1 <= m <= 12 /\ 1 <= d <= 31).
@@ -85,7 +83,7 @@ Proof.
   unfold check_date in H3. rewrite Hv in H3.
   destruct (y <=? 2099) eqn:E; [|apply Z.leb_gt in E; lia]. cbn [andb] in H3.
   change (epoch_days (mk_tm y m d h mi s)) with (epoch_days (mk_tm y m d 0 0 0)).
-  destruct (epoch_days (mk_tm y m d 0 0 0)) as [n|]; [|discriminate].
+  cbv zeta in H3. set (n := epoch_days (mk_tm y m d 0 0 0)) in *.
   apply andb_prop in H3. destruct H3 as [H3 H5]. apply andb_prop in H3. destruct H3 as [H3 H4].
-  apply Z.eqb_eq in H3. apply Z.leb_le in H4. apply Z.ltb_lt in H5. subst n. split; [reflexivity|lia].
+  apply Z.eqb_eq in H3. apply Z.leb_le in H4. apply Z.ltb_lt in H5. split; [exact H3|lia].
 Qed.
